@@ -19,7 +19,9 @@ RowSet(q, rest, k) == {Row(q, r, o, c, sp, rest, k) : r \in {1, 2}, o \in {"+", 
 JoinRow(a, b) == [q |-> a.q, r |-> a.r, ori |-> a.ori, conf |-> a.conf + b.conf, rs |-> MinV(a.rs, b.rs),
                   re |-> MaxV(a.re, b.re), rest |-> "False", pairs |-> a.pairs \o b.pairs, qs |-> 0, qe |-> 0,
                   hit |-> "j"]
-JoinOf(a, b) == IF joinOK[a.q] THEN JoinRow(a, b) ELSE NoRow
+\* 'best' hands a second-pass row that outscores the first-pass row to the resolver twice: joined with itself it comes back
+\* as the same record with AlignedRest False (single segment), or the join is refused (several segments: not collinear)
+JoinOf(a, b) == IF ~joinOK[a.q] THEN NoRow ELSE IF a = b THEN [a EXCEPT !.rest = "False"] ELSE JoinRow(a, b)
 
 Init == /\ first = <<>> /\ second = <<>> /\ runs = <<>> /\ pc = "gen1"
         /\ joinOK \in [1..NQ -> BOOLEAN]
